@@ -54,7 +54,10 @@ import (
 //@   nopanic
 //@   modifies nothing
 //@   ensures len(result) == len(s)
+//@   ensures[lowercased] forall(k, 0, len(s), result[k] == ite('A' <= s[k] && s[k] <= 'Z', s[k] + 32, s[k]))
 //@   loop 1 invariant 0 <= i && i <= len(s) && (b == nil || len(b) == len(s)) && fresh(b)
+//@   loop 1 invariant b == nil ==> forall(k, 0, i, !('A' <= s[k] && s[k] <= 'Z'))
+//@   loop 1 invariant b != nil ==> forall(k, 0, i, b[k] == ite('A' <= s[k] && s[k] <= 'Z', s[k] + 32, s[k])) && forall(k, i, len(s), b[k] == s[k])
 //@   loop 1 decreases len(s) - i
 
 //@ func (*parser).parseEscape
